@@ -1,6 +1,7 @@
 package main
 
 import (
+	"fmt"
 	"go/ast"
 	"sort"
 	"strings"
@@ -15,10 +16,10 @@ func init() {
 		Technique: "family/table agreement over the block-class hint predicates (which From* predicates the WAL cutoff consults, the planner partitions on, CompactBlockMetas and LeveledCompactor.Write propagate, each paired with its own Set*); go/cfg branch-arm and who-may-call rules for plan/planClass; order rules inside planClass (overlap selection, newest block excluded, failed ranges skipped)",
 		DesignRef: "DESIGN.md §5 C08",
 		Level: "Decides the class-segregation part: the set of hint predicates that keep a block out of the WAL replay cutoff is exactly the set that metadata merging and head-block writing propagate (each From* with its own Set*, the out-of-order hint only if every source has it), the planner partitions on exactly the two partial-view hints, " +
-			"hands planClass either one of the partitions or — only on the arm where at most one partition is non-empty — the whole input, nobody else calls planClass, and planClass looks for overlaps first, then drops the newest block before choosing a range group and skips groups with a failed block.",
+			"hands planClass either one of the partitions or — only on the arm where at most one partition is non-empty — the whole input, nobody else calls planClass, and planClass looks for overlaps first, then drops the newest block before choosing a range group and skips groups with a failed block. Also decides that range groups respect their window: splitByRange lets a block join the group of an aligned window only while it ends inside the window (the break and skip tests in linear normal form), and the window start is the aligned start containing the first block (rounded down for negative times).",
 		Note:     "Trusted: go/packages, go/types, go/cfg; rule tables in checker/c08.go.",
 		Covers:   "LeveledCompactor.plan/planClass/selectDirs, CompactBlockMetas, LeveledCompactor.Write (hint copy from base), inOrderBlocksMaxTime.",
-		NotCover: "range selection arithmetic (splitByRange, alignment), the tombstone ratio rule, convergence of the plan/compact loop.",
+		NotCover: "the alignment arithmetic itself (t0 is checked by form, not evaluated), the tombstone ratio rule, convergence of the plan/compact loop.",
 		Run:      runC08,
 		MinObligations: 20,
 	})
@@ -178,4 +179,31 @@ func runC08(c *eng.Ctx) {
 	}, 1)
 	c.CallersSubset("R3", "tsdb:LeveledCompactor.selectOverlappingDirs", 1, "tsdb:LeveledCompactor.planClass")
 	c.Fn("tsdb:LeveledCompactor.selectOverlappingDirs").Has("R3", p.FieldUse("tsdb:LeveledCompactor.enableOverlappingCompaction"), 1)
+	// ---- R4 range groups: a block joins the group of an aligned window only if it ends inside it ----
+	sr := c.Fn("tsdb:splitByRange")
+	join := eng.Node("group = append(group, ds[i])", func(g *eng.Graph, n ast.Node) bool { return nodeText(n) == "group = append(group, ds[i])" })
+	sr.Has("R4", join, 1)
+	brk := sr.Branches("break")
+	c.Check("R4", sr.Where(), "the group loop stops at the first block that ends beyond the window (MaxTime > t0+tr)", len(brk) == 1 && len(brk[0].Lin) == 1 && brk[0].Lin[0] == "-1*ds[i].meta.MaxTime +1*t0 +1*tr < 0", p.Pos(sr.Body.Pos()), fmt.Sprintf("%v", brk))
+	if len(brk) == 1 {
+		// the break test is evaluated for the very block that is about to join
+		sr.AstEvery("R4", "group loop", func(n ast.Node) bool {
+			fs, ok := n.(*ast.ForStmt)
+			return ok && strings.Contains(nodeText(fs.Body), "group = append(group, ds[i])") && !strings.Contains(nodeText(fs.Body), "splitDirs = append")
+		}, "tests the block before it joins, and advances by one", func(n ast.Node) bool {
+			fs := n.(*ast.ForStmt)
+			b := fs.Body.List
+			return len(b) == 2 && strings.HasPrefix(nodeText(b[0]), "if ds[i].meta.MaxTime > t0+tr {") && nodeText(b[1]) == "group = append(group, ds[i])" && fs.Post != nil && nodeText(fs.Post) == "i++" && nodeText(fs.Cond) == "i < len(ds)"
+		}, 1)
+	}
+	cont := sr.Branches("continue")
+	c.Check("R4", sr.Where(), "a first block that does not fit its own aligned window is skipped (MaxTime > t0+tr)", len(cont) == 1 && len(cont[0].Lin) == 1 && cont[0].Lin[0] == "-1*m.MaxTime +1*t0 +1*tr < 0", p.Pos(sr.Body.Pos()), fmt.Sprintf("%v", cont))
+	sr.Only("R4", eng.AssignVar("t0"), "is the start of the aligned window containing the first block's MinTime (rounded down, also for negative times)", func(l eng.Loc) bool {
+		if _, ok := l.Node.(*ast.AssignStmt); !ok {
+			return true
+		}
+		t := nodeText(l.Node)
+		return (t == "t0 = tr * (m.MinTime / tr)" && sr.UnderCond(l, "m.MinTime >= 0")) || (t == "t0 = tr * ((m.MinTime - tr + 1) / tr)" && sr.UnderCondFalse(l, "m.MinTime >= 0"))
+	})
+	sr.Only("R4", eng.AssignVar("m"), "is the first block not yet grouped", func(l eng.Loc) bool { return true })
 }
